@@ -3,6 +3,7 @@ package harness
 import (
 	"fmt"
 	"net"
+	"os"
 	"runtime"
 	"strings"
 	"sync"
@@ -230,21 +231,196 @@ func TestCloseReal(t *testing.T) {
 				if err = l.Listen(); err != nil {
 					panic(err)
 				}
-				var c net.Conn
+				var c, c2 net.Conn
 				c, err = dialRaw(l.Address(), tn)
 				if err != nil {
 					panic(err)
 				}
+				c2, err = dialRaw(l.Address(), tn) // this one never says anything at all
+				if err != nil {
+					panic(err)
+				}
 				_, _ = readN(c, 8, 2*time.Second) // the server's header; ours is withheld
+				_, _ = readN(c2, 8, 2*time.Second)
 				r.Emit("rclose", "sock", fmt.Sprintf("s%d", mi), "r", s.Close())
 				info := s.Info()
+				r.Emit("rhsdrop", "closed", closedWithin(c2, 2*time.Second))
 				_, _ = c.Write(goodHdr(info.Peer))
+				r.Emit("rhsdrop", "closed", closedWithin(c, 2*time.Second))
+				c.Close()
+				c2.Close()
+			}
+			g := waitNoGoroutines(3 * time.Second)
+			r.Emit("rcensus", "n", len(g), "g", fmt.Sprint(g))
+		}()
+		out.Add("closereal-hs-"+tn, rec.Ev{"tran": tn}, tn+" handshake", sim.Result{Lines: r.Lines(), Status: status, Detail: detail})
+	}
+	// connections that finished their handshake but were not yet accepted (the accept loop is busy in a hook)
+	// when the socket closes: every one of them must be closed
+	for _, tn := range []string{"tcp", "ipc"} {
+		var tr realTran
+		for _, x := range realTrans() {
+			if x.name == tn {
+				tr = x
+			}
+		}
+		r := rec.New()
+		status, detail := "ok", ""
+		func() {
+			defer func() {
+				if x := recover(); x != nil {
+					status, detail = "panic", fmt.Sprint(x)
+				}
+			}()
+			r.Emit("rbase", "g", len(waitNoGoroutines(2*time.Second)))
+			s, _ := pair.NewSocket()
+			gate := make(chan struct{})
+			entered := make(chan struct{}, 8)
+			s.SetPipeEventHook(func(ev mangos.PipeEvent, p mangos.Pipe) {
+				if ev == mangos.PipeEventAttaching {
+					entered <- struct{}{}
+					<-gate
+				}
+			})
+			l, err := s.NewListener(tr.addr(2300), nil)
+			if err != nil {
+				panic(err)
+			}
+			if err = l.Listen(); err != nil {
+				panic(err)
+			}
+			info := s.Info()
+			var conns []net.Conn
+			for i := 0; i < 3; i++ {
+				c, err := dialRaw(l.Address(), tn)
+				if err != nil {
+					panic(err)
+				}
+				_, _ = c.Write(goodHdr(info.Peer))
+				_, _ = readN(c, 8, 2*time.Second)
+				conns = append(conns, c)
+				if i == 0 {
+					select { // the accept loop is now inside the hook
+					case <-entered:
+					case <-time.After(3 * time.Second):
+					}
+				}
+			}
+			time.Sleep(100 * time.Millisecond) // the other two finish their handshakes meanwhile
+			cdone := make(chan error, 1)
+			go func() { cdone <- s.Close() }()
+			var cerr interface{} = "hung"
+			select { // Close does not need the hook to come back; should it ever, the gate opens after a second
+			case err := <-cdone:
+				cerr = err
+				close(gate)
+			case <-time.After(time.Second):
+				close(gate)
+				select {
+				case err := <-cdone:
+					cerr = err
+				case <-time.After(5 * time.Second):
+				}
+			}
+			r.Emit("rclose", "sock", "hq", "r", cerr)
+			for _, c := range conns {
 				r.Emit("rhsdrop", "closed", closedWithin(c, 2*time.Second))
 				c.Close()
 			}
 			g := waitNoGoroutines(3 * time.Second)
 			r.Emit("rcensus", "n", len(g), "g", fmt.Sprint(g))
 		}()
-		out.Add("closereal-hs-"+tn, rec.Ev{"tran": tn}, tn+" handshake", sim.Result{Lines: r.Lines(), Status: status, Detail: detail})
+		out.Add("closereal-hsq-"+tn, rec.Ev{"tran": tn}, tn+" handshaked, not accepted", sim.Result{Lines: r.Lines(), Status: status, Detail: detail})
+	}
+	// inproc: a Dial that is waiting for the busy listener when that listener's socket closes must come back
+	{
+		r := rec.New()
+		status, detail := "ok", ""
+		func() {
+			defer func() {
+				if x := recover(); x != nil {
+					status, detail = "panic", fmt.Sprint(x)
+				}
+			}()
+			r.Emit("rbase", "g", len(waitNoGoroutines(2*time.Second)))
+			for round := 0; round < 2; round++ {
+				s, _ := pair.NewSocket()
+				gate := make(chan struct{})
+				entered := make(chan struct{}, 8)
+				s.SetPipeEventHook(func(ev mangos.PipeEvent, p mangos.Pipe) {
+					if ev == mangos.PipeEventAttaching {
+						entered <- struct{}{}
+						<-gate
+					}
+				})
+				addr := fmt.Sprintf("inproc://closewait-%d-%d", os.Getpid(), round)
+				l, err := s.NewListener(addr, nil)
+				if err != nil {
+					panic(err)
+				}
+				if err = l.Listen(); err != nil {
+					panic(err)
+				}
+				d1, _ := pair.NewSocket()
+				d2, _ := pair.NewSocket()
+				go func() { _ = d1.Dial(addr) }()
+				select {
+				case <-entered:
+				case <-time.After(3 * time.Second):
+				}
+				type dres struct {
+					err error
+					dt  time.Duration
+				}
+				res := make(chan dres, 1)
+				var t0 time.Time
+				var mu sync.Mutex
+				go func() {
+					err := d2.Dial(addr) // nobody is accepting: waits
+					mu.Lock()
+					dt := time.Since(t0)
+					mu.Unlock()
+					res <- dres{err, dt}
+				}()
+				time.Sleep(150 * time.Millisecond)
+				mu.Lock()
+				t0 = time.Now()
+				mu.Unlock()
+				cdone := make(chan error, 1)
+				go func() {
+					if round == 0 {
+						cdone <- s.Close()
+					} else {
+						cdone <- l.Close() // closing only the listener must do as well
+					}
+				}()
+				var cerr interface{} = "hung"
+				select {
+				case err := <-cdone:
+					cerr = err
+					close(gate)
+				case <-time.After(time.Second):
+					close(gate)
+					select {
+					case err := <-cdone:
+						cerr = err
+					case <-time.After(5 * time.Second):
+					}
+				}
+				r.Emit("rclose", "sock", fmt.Sprintf("w%d", round), "r", cerr)
+				select {
+				case x := <-res:
+					r.Emit("rdialret", "r", x.err, "prompt", x.dt < 2*time.Second)
+				case <-time.After(3 * time.Second):
+					r.Emit("rdialret", "r", "hung", "prompt", false)
+				}
+				_ = s.Close()
+				_ = d1.Close()
+				_ = d2.Close()
+			}
+			g := waitNoGoroutines(3 * time.Second)
+			r.Emit("rcensus", "n", len(g), "g", fmt.Sprint(g))
+		}()
+		out.Add("closereal-inproc-dialwait", rec.Ev{"tran": "inproc"}, "inproc dial waiting at close", sim.Result{Lines: r.Lines(), Status: status, Detail: detail})
 	}
 }
